@@ -276,9 +276,23 @@ def r7(run, db):
         r["k"] == "call" and r["call"].matches(r"Iterator::map$") and closure_returns_field(r["call"], 1, "actor_id") for r in f.origins(c.args[0]))]
     run.anchor("order on local actor ids", len(mins), 1, f.where())
     alls = [c for c in f.calls() if c.matches(r"Iterator::all$") and closure_returns_field(c, 1, "is_server")]
+    # `!candidates.iter().any(|c| !c.is_server)` is the same test
+    def closure_returns_not_field(call, argi, field):
+        for r in f.origins(call.args[argi]):
+            g = db.fns.get(r["stmt"]["rv"].get("def")) if r["k"] == "agg" else None
+            if g is None or g.switches():
+                continue
+            for rr in g.origins([0, []]):
+                if rr["k"] == "un" and rr["op"] == "Not":
+                    inner = g.origins(rr["a"])
+                    if any(field in [proj_field_name(e) for e in x.get("proj", []) + x.get("trail", []) if e.startswith("f:")] for x in inner):
+                        return True
+        return False
+    none_client = [c for c in f.calls() if c.matches(r"Iterator::any$") and closure_returns_not_field(c, 1, "is_server")]
     retains = [c for c in f.calls() if c.matches(r"Vec::<T, A>::retain$")]
     for c in mins:
-        good = [a for a in alls if true_edge(f, a) and f.edge_dominates(true_edge(f, a), c.site) and all(f.reaches_after(r.site, a.site) for r in retains if f.reaches_after(r.site, c.site) and not f.reaches_after(c.site, r.site) and r.site != c.site and not f.dominates(c.site, r.site))]
+        good2 = [a for a in none_client if false_edge(f, a) and f.edge_dominates(false_edge(f, a), c.site) and all(f.reaches_after(r.site, a.site) for r in retains if f.reaches_after(r.site, c.site) and not f.dominates(c.site, r.site) and r.site != c.site)]
+        good = good2 + [a for a in alls if true_edge(f, a) and f.edge_dominates(true_edge(f, a), c.site) and all(f.reaches_after(r.site, a.site) for r in retains if f.reaches_after(r.site, c.site) and not f.reaches_after(c.site, r.site) and r.site != c.site and not f.dominates(c.site, r.site))]
         run.check(bool(good), "id-order-only-among-accepted", "the order on local actor ids is used only when all remaining candidates are server-side sessions (tested after the narrowing)",
                   "elect_sessions breaks a tie by local actor ids without having established that every remaining candidate is an accepted (server-side) connection: the initiating node then decides by its own ids, the acceptor by its own, and each closes the connection the other kept", c.where())
 
